@@ -104,6 +104,12 @@ Definition ub := unpack.
 (** ------------------------------------------------------------------ C08 *)
 Definition eqn (l : list Z) (e : list N) : bool := bytes_eqb (enc_nums l) (unpack e).
 Definition flag (i : Z) (b : bool) : list Z := if b then [] else [i].
+(** an empty expectation stands for "the default" (keeps the case files small) *)
+Definition eqn_same (l : list Z) (e : list N) (dflt : list Z) : bool :=
+  match e with
+  | [] => bytes_eqb (enc_nums l) (enc_nums dflt)
+  | _ => eqn l e
+  end.
 Definition all_true : bytes -> bool := fun _ => true.
 
 Definition coptn (o : option N) : list Z :=
@@ -149,10 +155,12 @@ Definition check_v4 (c : slate4 * list N * list N * list N * list N * list N * l
   let '(s, e_bin, e_bin_dec, e_fields, e_json_dec, e_conv, e_kernel) := c in
   let bin := enc_v4bin s in
   flag 1 (bytes_eqb bin (unpack e_bin))
-  ++ flag 2 (eqn (canon_result canon_v4 (run_rd (dec_v4bin all_true all_true true) bin)) e_bin_dec)
+  ++ flag 2 (eqn_same (canon_result canon_v4 (run_rd (dec_v4bin all_true all_true true) bin)) e_bin_dec
+                      (0%Z :: canon_v4 s))
   ++ flag 3 (eqn (canon_fields (to_fields s)) e_fields)
-  ++ flag 4 (eqn (canon_result canon_v4 (of_fields true all_true all_true all_true (to_fields s))) e_json_dec)
-  ++ flag 5 (eqn (canon_v4 (v4_of_slate (slate_of_v4 s))) e_conv)
+  ++ flag 4 (eqn_same (canon_result canon_v4 (of_fields true all_true all_true all_true (to_fields s))) e_json_dec
+                      (0%Z :: canon_v4 s))
+  ++ flag 5 (eqn_same (canon_v4 (v4_of_slate (slate_of_v4 s))) e_conv (canon_v4 s))
   ++ flag 6 (eqn (canon_kernel (slate_of_v4 s)) e_kernel).
 
 Definition ap_id : bytes -> option bytes := fun s => Some s.
